@@ -95,7 +95,44 @@ except Exception as e:
 sys.exit(0)
 '''
 
+LOOP_MODEL = r'''
+import sys, os, tempfile, importlib.util
+import numpy as np, onnx, onnxscript
+from onnxscript import script, FLOAT, INT64
+from onnxscript import opset18 as op
+import onnxruntime as ort
+def run(m, feeds):
+    return ort.InferenceSession(m.SerializeToString(), providers=['CPUExecutionProvider']).run(None, feeds)[0]
+
+@script(default_opset=op)
+def summ(x: FLOAT[2], n: INT64) -> FLOAT[2]:
+    acc = x
+    for i in range(n):
+        acc = acc + x
+    return acc
+m = summ.to_model_proto()
+try:
+    code = onnxscript.proto2python(m)
+except Exception as e:
+    print("proto2python(model with a for loop) raises", type(e).__name__, str(e)[:100]); sys.exit(1)
+d = tempfile.mkdtemp(); path = os.path.join(d, "loop_case.py"); open(path, "w").write(code)
+spec = importlib.util.spec_from_file_location("loop_case", path); mod = importlib.util.module_from_spec(spec); sys.modules["loop_case"] = mod
+try:
+    spec.loader.exec_module(mod)
+except Exception as e:
+    print(code); print("exported script does not load:", type(e).__name__, str(e).splitlines()[0][:200]); sys.exit(1)
+fn = [v for v in vars(mod).values() if isinstance(v, onnxscript.OnnxFunction)][-1]
+x = np.array([1.0, 2.0], dtype=np.float32); n = np.array(3, dtype=np.int64)
+a = run(m, {"x": x, "n": n})
+m2 = fn.to_model_proto()
+b = run(m2, {m2.graph.input[0].name: x, m2.graph.input[1].name: n})
+print(a, b)
+sys.exit(0 if np.allclose(a, b) else 1)
+'''
+
 def replay(ob):
+    if "name_remapping_scope" in ob["name"]:
+        return LOOP_MODEL
     if "graph_signature.parameters" in ob["name"]:
         return RENAME_SIG
     if "operator_text.parses" in ob["name"]:
